@@ -1,5 +1,6 @@
-import Pxv.Lemmas.Scope
+import Pxv.Lemmas.ScopeWalk
 import Pxv.Lemmas.ScopeProcess
+import Pxv.Lemmas.ScopeDesignated
 import Pxv.Lemmas.ScopeStage
 import Pxv.Lemmas.Injection
 import Pxv.Thm.C01
@@ -14,164 +15,42 @@ C04 — injection is faithful: right constructor, right scope, no illicit copies
 namespace Pxv.Scope
 open Pxv.CG
 
-/-- ancestor-or-self scopes of `s`, nearest first -/
-def ancestors (g : SGraph) (s : Nat) : List Nat := chainF g.parents (s + 1) s
-
-/-- every scope from `s` up to the root has at most one parent (true of every scope except the
-    application-state scope) -/
-def TreeAbove (g : SGraph) (s : Nat) : Prop := TreeFrom g.parents (s + 1) s
-
-theorem fuel_ge (g : SGraph) (s : Nat) (h : s ≤ g.app) : s + 1 ≤ g.fuel := by
-  unfold SGraph.fuel
-  have : g.app + 1 ≤ (g.app + 1) * (g.app + 1) := Nat.le_mul_of_pos_left _ (by omega)
-  omega
-
-theorem treeFrom_ge (parents : Nat → List Nat) (s : Nat) :
-    ∀ f, TreeFrom parents f s → ∀ f', f' ≤ f → TreeFrom parents f' s := by
-  intro f h f' hle
-  induction hle with
-  | refl => exact h
-  | step _ ih => exact ih (treeFrom_mono parents _ s h)
-
-/-- more fuel does not break tree-likeness when parents decrease (the chain has ended by then) -/
-theorem treeFrom_more (parents : Nat → List Nat) (hd : Decr parents) :
-    ∀ s, TreeFrom parents (s + 1) s → ∀ f, TreeFrom parents f s := by
-  intro s
-  induction s using Nat.strongRecOn with
-  | _ s ih =>
-    intro h f
-    cases f with
-    | zero => trivial
-    | succ f =>
-      unfold TreeFrom at h ⊢
-      match hp : parents s with
-      | [] => trivial
-      | [p] =>
-        rw [hp] at h
-        simp only at h ⊢
-        have hlt : p < s := hd s p (by simp [hp])
-        exact ih p hlt (treeFrom_ge parents p s h (p + 1) (by omega)) f
-      | _ :: _ :: _ => rw [hp] at h; exact h.elim
-
 /-- **C04 (1) — nearest enclosing registration**: from a scope whose ancestors form a chain (every
     request handler, middleware and blueprint scope), `ConstructibleDb::get` returns what the first
     scope on the way up to the root has registered for the type. -/
 theorem get_nearest (g : SGraph) (regs : List (Nat × Ctor)) (s ty : Nat)
     (hd : Decr g.parents) (hs : s ≤ g.app) (ht : TreeAbove g s) :
-    get g regs s ty = firstHit (fun k => lookup regs k ty) (ancestors g s) := by
-  unfold get ancestors
-  rw [bfs_chain _ _ _ _ (treeFrom_more _ hd s ht _)]
-  rw [chainF_stable _ hd s _ (fuel_ge g s hs)]
-
-/-- `firstHit` spelled out: the answer comes from the nearest ancestor-or-self scope that has the
-    type, and every scope nearer than that one has nothing for it. -/
-theorem firstHit_iff (has : Nat → Option Ctor) (l : List Nat) (c : Ctor) :
-    firstHit has l = some c ↔
-      ∃ pre a post, l = pre ++ a :: post ∧ has a = some c ∧ ∀ k ∈ pre, has k = none := by
-  induction l with
-  | nil => simp [firstHit]
-  | cons x xs ih =>
-    simp only [firstHit]
-    cases hx : has x with
-    | some c' =>
-      constructor
-      · intro h
-        refine ⟨[], x, xs, rfl, ?_, by simp⟩
-        simpa [hx] using h
-      · rintro ⟨pre, a, post, hl, ha, hpre⟩
-        cases pre with
-        | nil =>
-          simp only [List.nil_append, List.cons.injEq] at hl
-          rw [hl.1, ha] at hx
-          simp_all
-        | cons y ys =>
-          simp only [List.cons_append, List.cons.injEq] at hl
-          have := hpre y (by simp)
-          rw [← hl.1, hx] at this
-          cases this
-    | none =>
-      simp only
-      rw [ih]
-      constructor
-      · rintro ⟨pre, a, post, hl, ha, hpre⟩
-        refine ⟨x :: pre, a, post, by simp [hl], ha, ?_⟩
-        intro k hk
-        simp only [List.mem_cons] at hk
-        rcases hk with rfl | hk
-        · exact hx
-        · exact hpre k hk
-      · rintro ⟨pre, a, post, hl, ha, hpre⟩
-        cases pre with
-        | nil =>
-          simp only [List.nil_append, List.cons.injEq] at hl
-          rw [← hl.1, hx] at ha
-          cases ha
-        | cons y ys =>
-          simp only [List.cons_append, List.cons.injEq] at hl
-          exact ⟨ys, a, post, hl.2, ha, fun k hk => hpre k (by simp [hk])⟩
+    get g regs s ty = firstHit (fun k => lookup regs k ty) (ancestors g s) :=
+  Walk.get_nearest g regs s ty hd hs ht
 
 /-- **C04 (1')**, in words: `get` answers `c` exactly when `c` is what the nearest ancestor-or-self
-    scope with a registration for `ty` holds. -/
+    scope with a registration for `ty` holds (every nearer scope has nothing for it). -/
 theorem get_nearest_iff (g : SGraph) (regs : List (Nat × Ctor)) (s ty : Nat) (c : Ctor)
     (hd : Decr g.parents) (hs : s ≤ g.app) (ht : TreeAbove g s) :
     get g regs s ty = some c ↔
       ∃ pre a post, ancestors g s = pre ++ a :: post ∧ lookup regs a ty = some c ∧
-        ∀ k ∈ pre, lookup regs k ty = none := by
-  rw [get_nearest g regs s ty hd hs ht, firstHit_iff]
+        ∀ k ∈ pre, lookup regs k ty = none :=
+  Walk.get_nearest_iff g regs s ty c hd hs ht
 
 /-- **C04 (2) — the latest registration wins inside one scope**: what a scope holds for a type is the
     last constructor registered against that scope for that type. -/
 theorem latest_wins (regs : List (Nat × Ctor)) (s ty : Nat) :
     lookup regs s ty =
-      ((regs.filter (fun r => r.1 == s && r.2.ty == ty)).getLast?).map (·.2) := by
-  unfold lookup table
-  rw [find_foldl_insert]
-  simp [List.filter_filter, Bool.and_comm]
-
-theorem ancestors_cons (g : SGraph) (s p : Nat) (hd : Decr g.parents) (hp : g.parents s = [p]) :
-    ancestors g s = s :: ancestors g p := by
-  unfold ancestors
-  have hlt : p < s := hd s p (by simp [hp])
-  have h1 : chainF g.parents (s + 1) s = s :: chainF g.parents s p := by
-    rw [chainF]
-    simp only [hp]
-  rw [h1, chainF_stable _ hd p s (by omega)]
+      ((regs.filter (fun r => r.1 == s && r.2.ty == ty)).getLast?).map (·.2) :=
+  Walk.latest_wins regs s ty
 
 /-- **C04 (3) — registrations of parents are inherited**: a scope that has nothing for the type
     gets exactly what its parent gets. -/
 theorem parent_inherited (g : SGraph) (regs : List (Nat × Ctor)) (s p ty : Nat)
     (hd : Decr g.parents) (hs : s ≤ g.app) (ht : TreeAbove g s)
     (hp : g.parents s = [p]) (hnone : lookup regs s ty = none) :
-    get g regs s ty = get g regs p ty := by
-  have hlt : p < s := hd s p (by simp [hp])
-  have htp : TreeAbove g p := by
-    unfold TreeAbove at ht ⊢
-    unfold TreeFrom at ht
-    rw [hp] at ht
-    exact treeFrom_ge _ _ _ ht _ (by omega)
-  rw [get_nearest g regs s ty hd hs ht, get_nearest g regs p ty hd (by omega) htp,
-    ancestors_cons g s p hd hp]
-  simp [firstHit, hnone]
+    get g regs s ty = get g regs p ty :=
+  Walk.parent_inherited g regs s p ty hd hs ht hp hnone
 
 /-- …and a scope that has a registration of its own uses it, whatever its ancestors say. -/
 theorem own_registration_wins (g : SGraph) (regs : List (Nat × Ctor)) (s ty : Nat) (c : Ctor)
-    (hown : lookup regs s ty = some c) : get g regs s ty = some c := by
-  unfold get SGraph.fuel
-  simp [bfs, hown]
-
-theorem lookup_congr (regs regs' : List (Nat × Ctor)) (s ty : Nat)
-    (h : regs.filter (fun r => r.1 == s) = regs'.filter (fun r => r.1 == s)) :
-    lookup regs s ty = lookup regs' s ty := by
-  unfold lookup table
-  rw [h]
-
-theorem firstHit_congr (has has' : Nat → Option Ctor) (l : List Nat)
-    (h : ∀ k ∈ l, has k = has' k) : firstHit has l = firstHit has' l := by
-  induction l with
-  | nil => rfl
-  | cons x xs ih =>
-    simp only [firstHit]
-    rw [h x (by simp), ih (fun k hk => h k (by simp [hk]))]
+    (hown : lookup regs s ty = some c) : get g regs s ty = some c :=
+  Walk.own_registration_wins g regs s ty c hown
 
 /-- **C04 (4) — siblings are invisible**: registrations against scopes that are not ancestors of `s`
     (sibling blueprints, their routes, anything nested elsewhere) cannot change what `s` gets,
@@ -179,20 +58,8 @@ theorem firstHit_congr (has has' : Nat → Option Ctor) (l : List Nat)
 theorem sibling_invisible (g : SGraph) (regs extra : List (Nat × Ctor)) (s ty : Nat)
     (hd : Decr g.parents) (hs : s ≤ g.app) (ht : TreeAbove g s)
     (hout : ∀ r ∈ extra, r.1 ∉ ancestors g s) :
-    get g (regs ++ extra) s ty = get g regs s ty := by
-  rw [get_nearest g _ s ty hd hs ht, get_nearest g _ s ty hd hs ht]
-  apply firstHit_congr
-  intro k hk
-  apply lookup_congr
-  rw [List.filter_append]
-  have : extra.filter (fun r => r.1 == k) = [] := by
-    rw [List.filter_eq_nil_iff]
-    intro r hr
-    have := hout r hr
-    intro hrk
-    simp only [beq_iff_eq] at hrk
-    exact this (hrk ▸ hk)
-  rw [this, List.append_nil]
+    get g (regs ++ extra) s ty = get g regs s ty :=
+  Walk.sibling_invisible g regs extra s ty hd hs ht hout
 
 /-- a run of clone requests starts from a graph without clone nodes -/
 def fresh (g : Graph) : CGraph := { g := g }
@@ -251,9 +118,79 @@ theorem get_nearest_process (b : Bp) (s ty : Nat) (hs : s < (process b).next) :
       firstHit (fun k => lookup (process b).regs k ty) (ancestors (build (process b)) s) := by
   have hwf := process_wf b
   have hd := build_decr _ hwf
-  apply get_nearest _ _ _ _ hd
+  apply Walk.get_nearest _ _ _ _ hd
   · simp [build]; omega
   · exact treeFrom_of_le_one _ hd (process b).next (build_parents_le_one _ hwf) _ _ hs
+
+
+/-- **C04 — the blueprint decides**: for every blueprint — arbitrary nesting, registrations in any order, before
+    or after the routes, several for one type — every route's request handler resolves every type to exactly what the
+    documented rule designates: the latest registration of the nearest enclosing blueprint that registers the type
+    (`designated`, read off the blueprint tree alone). Sibling blueprints never show up in it. -/
+theorem get_designated (b : Bp) (ty : Nat) :
+    ∀ rk ∈ (process b).routes,
+      (rk.1, get (build (process b)) (process b).regs rk.2 ty) ∈ designated b ty := by
+  have hw0 := walkOwn_wf b 0 {} wf_init (by decide)
+  obtain ⟨es, rs, ms, h1, h2, h3, h4, h5, h6, _, _, _⟩ := walkOwn_delta b 0 {}
+  -- the state after the root's own registrations and its fallback
+  have hst0 : ((walkOwn b 0 {}).addScope 0).Wf := addScope_wf _ 0 hw0.1 hw0.1.pos
+  generalize hs0 : (walkOwn b 0 {}).addScope 0 = st0 at hst0
+  have hregs0 : st0.regs = (ownCtors b).map (fun c => (0, c)) := by
+    rw [← hs0]; simp only [St.addScope]; rw [h1]; rfl
+  have hroutes0 : st0.routes = rs := by
+    rw [← hs0]; simp only [St.addScope]; rw [h4]; rfl
+  have hedges0 : ∀ e ∈ es, e ∈ st0.edges := by
+    intro e he
+    rw [← hs0]; simp only [St.addScope]; rw [h2]; simp [he]
+  have hr0 : RegsLt st0 := by
+    intro r hr
+    rw [hregs0] at hr
+    simp only [List.mem_map] at hr
+    obtain ⟨c, _, rfl⟩ := hr
+    exact hst0.pos
+  have hproc : process b = kids b 0 st0 := by rw [← hs0]; rfl
+  have hfacts := kids_facts b 0 st0 hst0 hr0 hst0.pos
+  have hfin : (process b).Wf := process_wf b
+  rw [hproc] at hfin ⊢
+  have hlook : lookup st0.regs 0 ty = ownLast b ty := by
+    rw [hregs0]
+    have := lookup_own [] 0 (ownCtors b) ty rfl
+    rw [List.nil_append] at this
+    exact this
+  have henv : getF (kids b 0 st0) 0 ty = ownLast b ty := by
+    rw [getF_frozen hfacts.2 hst0 hfin 0 ty hst0.pos, getF_root st0 hst0 ty, hlook]
+  obtain ⟨rs', hrs'⟩ := hfacts.2.routes
+  intro rk hrk
+  rw [hrs', hroutes0] at hrk
+  simp only [designated, List.mem_append] at hrk ⊢
+  rcases hrk with hrk | hrk
+  · left
+    have hedge := hedges0 _ (h6 rk hrk)
+    have hk := (hst0.lt _ hedge).2
+    simp only at hk
+    have hnone : lookup st0.regs rk.2 ty = none := by
+      apply lookup_of_no_regs
+      rw [hregs0, List.filter_eq_nil_iff]
+      intro x hx hc
+      simp only [List.mem_map] at hx
+      obtain ⟨c, _, rfl⟩ := hx
+      simp only [beq_iff_eq] at hc
+      have := (h3 _ (h6 rk hrk)).2
+      simp only at this
+      have h00 : ({} : St).next = 1 := rfl
+      omega
+    have : getF (kids b 0 st0) rk.2 ty = ownLast b ty := by
+      rw [getF_frozen hfacts.2 hst0 hfin rk.2 ty hk, getF_parent st0 hst0 rk.2 0 ty hk (parents_of_edge hst0 hedge) hnone,
+        getF_root st0 hst0 ty, hlook]
+    show (rk.1, getF (kids b 0 st0) rk.2 ty) ∈ _
+    rw [this]
+    refine List.mem_map.mpr ⟨rk.1, ?_, rfl⟩
+    rw [← h5]
+    exact List.mem_map.mpr ⟨rk, hrk, rfl⟩
+  · right
+    have := kids_designated ty b 0 st0 (kids b 0 st0) (ownLast b ty) hst0 hr0 hst0.pos hfin (Ext.refl _) henv rs'
+      (by rw [hrs', hroutes0]) rk hrk
+    exact this
 
 
 /-- **C04 — no illicit copy between the middlewares of a stage**: when step 4 of the pipeline accepts a
@@ -346,7 +283,8 @@ example :
     st.routes = [(0, 1), (2, 4), (1, 7)] ∧ st.mws = [(0, 6)] ∧ st.nested = [(3, 0), (5, 0)] ∧ st.next = 8 ∧
     (build st).parents 8 = [0, 3, 5] ∧ ancestors (build st) 7 = [7, 5, 0] ∧
     ((get (build st) st.regs 7 7).map (·.id), (get (build st) st.regs 4 7).map (·.id), (get (build st) st.regs 1 7).map (·.id),
-      (get (build st) st.regs 6 7).map (·.id)) = (some 12, some 11, some 11, some 12) := by decide
+      (get (build st) st.regs 6 7).map (·.id)) = (some 12, some 11, some 11, some 12) ∧
+    (designated b 7).map (fun x => (x.1, x.2.map (·.id))) = [(0, some 11), (1, some 12), (2, some 11)] := by decide
 
 end Pxv.Scope
 
